@@ -840,7 +840,7 @@ Proof.
   pose proof (vinv_poll cfg c v1 I1) as I2.
   match type of H with (match ?x with Some _ => _ | None => _ end) = _ => destruct x as [v3|] eqn:E3; [|discriminate] end.
   assert (I3 : vinv cfg v3).
-  { destruct (e_kind e) as [t|t|t name km|t|t|].
+  { destruct (e_kind e) as [t|t|t ci name km|t who|t|].
     - inversion E3; subst. apply vinv_poll. destruct (task_dec c t); [apply vinv_add_fired|]; assumption.
     - destruct (tinfo_of c t) as [ti|]; [|discriminate]. destruct (ti_dec ti) as [[name km]|].
       + destruct (vdo cfg (poll cfg c v1) _) as [v'' |] eqn:E4; [|discriminate].
@@ -853,7 +853,7 @@ Proof.
   destruct (negb (snap_ok cfg c (v_s v3) e)); [discriminate|].
   match type of H with (match ?x with Some _ => _ | None => _ end) = _ => destruct x as [v4|] eqn:E4; [|discriminate] end.
   inversion H; subst; clear H. apply vinv_poll. apply vinv_set_done.
-  destruct (e_kind e) as [t|t|t name km|t|t|]; try (inversion E4; subst; apply vinv_set_post; assumption).
+  destruct (e_kind e) as [t|t|t ci name km|t who|t|]; try (inversion E4; subst; apply vinv_set_post; assumption).
   destruct (vdo cfg v3 _) as [v5|] eqn:E5; [|discriminate]. inversion E4; subst. apply vinv_set_post.
   eapply vinv_vdo; eassumption.
 Qed.
@@ -879,45 +879,42 @@ Qed.
 (* ==================================================================================================== *)
 (* inhabitation of the hypotheses of the property theorems                                               *)
 (* ==================================================================================================== *)
-(* an observation of the real pyscript (legacy subsystem: task 0 claims "x", the @task_unique("x") run of task 1 starts
-   one second later and replaces it), as recorded by harness/vh/workers/c13_unique.py *)
+(* an observation of the real pyscript (legacy subsystem: task 0 of scripts.a claims "x" directly and again through a helper of
+   the imported module, i.e. in context modules.pvh; the @task_unique("x") run of task 1 starts one second later and replaces it),
+   as recorded by harness/vh/workers/c13_unique.py *)
 Definition example_case : ucase :=
-    {| uc_legacy := true; uc_ctxs := ["scripts.a"%string; "scripts.c"%string]; uc_tasks := [{| ti_ctx := 0%nat; 
+    (let pv_s0 := {| o_n2t := []; o_t2n := []; o_ours := []; o_done := []; o_views := [[]; []; 
+    []] |} in let pv_s1 := {| o_n2t := []; o_t2n := []; o_ours := [0%N]; o_done := []; o_views := [[]; []; 
+    []] |} in let pv_s2 := {| o_n2t := [(("scripts.a"%string, "x"%string), 0%N)]; 
+    o_t2n := [(0%N, ("scripts.a"%string, "x"%string))]; o_ours := [0%N]; o_done := []; 
+    o_views := [[("x"%string, 0%N)]; []; 
+    []] |} in let pv_s3 := {| o_n2t := [(("modules.pvh"%string, "x"%string), 0%N); 
+    (("scripts.a"%string, "x"%string), 0%N)]; o_t2n := [(0%N, ("modules.pvh"%string, "x"%string)); 
+    (0%N, ("scripts.a"%string, "x"%string))]; o_ours := [0%N]; o_done := []; o_views := [[("x"%string, 0%N)]; []; 
+    [("x"%string, 0%N)]] |} in let pv_s4 := {| o_n2t := [(("modules.pvh"%string, "x"%string), 0%N); 
+    (("scripts.a"%string, "x"%string), 1%N)]; o_t2n := [(0%N, ("modules.pvh"%string, "x"%string)); 
+    (1%N, ("scripts.a"%string, "x"%string))]; o_ours := [0%N; 1%N]; o_done := []; o_views := [[("x"%string, 1%N)]; 
+    []; [("x"%string, 0%N)]] |} in let pv_s5 := {| o_n2t := [(("scripts.a"%string, "x"%string), 1%N)]; 
+    o_t2n := [(1%N, ("scripts.a"%string, "x"%string))]; o_ours := [1%N]; o_done := [(0%N, true)]; 
+    o_views := [[("x"%string, 1%N)]; []; []] |} in let pv_s6 := {| o_n2t := []; o_t2n := []; o_ours := []; 
+    o_done := [(0%N, true); (1%N, false)]; o_views := [[]; []; []] |} in {| uc_legacy := true; 
+    uc_ctxs := ["scripts.a"%string; "scripts.c"%string; "modules.pvh"%string]; uc_tasks := [{| ti_ctx := 0%nat; 
     ti_ours := true; ti_dec := None |}; {| ti_ctx := 0%nat; ti_ours := true; 
     ti_dec := (Some ("x"%string, false)) |}]; uc_horizon := 4%N; uc_events := [{| e_kind := KFire 0%N; 
-    e_own := None; e_snap := {| o_n2t := []; o_t2n := []; o_ours := []; o_done := []; o_views := [[]; []] |} |}; 
-    {| e_kind := KBegin 0%N; e_own := (Some []); e_snap := {| o_n2t := []; o_t2n := []; o_ours := [0%N]; 
-    o_done := []; o_views := [[]; []] |} |}; {| e_kind := KPre 0%N "x"%string false; e_own := (Some []); 
-    e_snap := {| o_n2t := []; o_t2n := []; o_ours := [0%N]; o_done := []; o_views := [[]; []] |} |}; 
-    {| e_kind := KPost 0%N; e_own := (Some [("x"%string, 0%N)]); 
-    e_snap := {| o_n2t := [((""%string, "scripts.a.x"%string), 0%N)]; 
-    o_t2n := [(0%N, (""%string, "scripts.a.x"%string))]; o_ours := [0%N]; o_done := []; 
-    o_views := [[("x"%string, 0%N)]; []] |} |}; {| e_kind := KQuiet; e_own := None; 
-    e_snap := {| o_n2t := [((""%string, "scripts.a.x"%string), 0%N)]; 
-    o_t2n := [(0%N, (""%string, "scripts.a.x"%string))]; o_ours := [0%N]; o_done := []; 
-    o_views := [[("x"%string, 0%N)]; []] |} |}; {| e_kind := KFire 1%N; e_own := None; 
-    e_snap := {| o_n2t := [((""%string, "scripts.a.x"%string), 0%N)]; 
-    o_t2n := [(0%N, (""%string, "scripts.a.x"%string))]; o_ours := [0%N]; o_done := []; 
-    o_views := [[("x"%string, 0%N)]; []] |} |}; {| e_kind := KBegin 1%N; e_own := (Some [("x"%string, 1%N)]); 
-    e_snap := {| o_n2t := [((""%string, "scripts.a.x"%string), 1%N)]; 
-    o_t2n := [(1%N, (""%string, "scripts.a.x"%string))]; o_ours := [0%N; 1%N]; o_done := []; 
-    o_views := [[("x"%string, 1%N)]; []] |} |}; {| e_kind := KQuiet; e_own := None; 
-    e_snap := {| o_n2t := [((""%string, "scripts.a.x"%string), 1%N)]; 
-    o_t2n := [(1%N, (""%string, "scripts.a.x"%string))]; o_ours := [1%N]; o_done := [(0%N, true)]; 
-    o_views := [[("x"%string, 1%N)]; []] |} |}; {| e_kind := KNop 1%N; e_own := (Some [("x"%string, 1%N)]); 
-    e_snap := {| o_n2t := [((""%string, "scripts.a.x"%string), 1%N)]; 
-    o_t2n := [(1%N, (""%string, "scripts.a.x"%string))]; o_ours := [1%N]; o_done := [(0%N, true)]; 
-    o_views := [[("x"%string, 1%N)]; []] |} |}; {| e_kind := KNop 1%N; e_own := (Some [("x"%string, 1%N)]); 
-    e_snap := {| o_n2t := [((""%string, "scripts.a.x"%string), 1%N)]; 
-    o_t2n := [(1%N, (""%string, "scripts.a.x"%string))]; o_ours := [1%N]; o_done := [(0%N, true)]; 
-    o_views := [[("x"%string, 1%N)]; []] |} |}; {| e_kind := KQuiet; e_own := None; e_snap := {| o_n2t := []; 
-    o_t2n := []; o_ours := []; o_done := [(0%N, true); (1%N, false)]; o_views := [[]; []] |} |}; 
-    {| e_kind := KQuiet; e_own := None; e_snap := {| o_n2t := []; o_t2n := []; o_ours := []; 
-    o_done := [(0%N, true); (1%N, false)]; o_views := [[]; []] |} |}; {| e_kind := KQuiet; e_own := None; 
-    e_snap := {| o_n2t := []; o_t2n := []; o_ours := []; o_done := [(0%N, true); (1%N, false)]; o_views := [[]; 
-    []] |} |}]; uc_sane := true |}.
+    e_own := None; e_snap := pv_s0 |}; {| e_kind := KBegin 0%N; e_own := (Some (0%nat, [])); e_snap := pv_s1 |}; 
+    {| e_kind := KPre 0%N 0%nat "x"%string false; e_own := (Some (0%nat, [])); e_snap := pv_s1 |}; 
+    {| e_kind := KPost 0%N (Some 0%N); e_own := (Some (0%nat, [("x"%string, 0%N)])); e_snap := pv_s2 |}; 
+    {| e_kind := KPre 0%N 2%nat "x"%string false; e_own := (Some (2%nat, [])); e_snap := pv_s2 |}; 
+    {| e_kind := KPost 0%N (Some 0%N); e_own := (Some (2%nat, [("x"%string, 0%N)])); e_snap := pv_s3 |}; 
+    {| e_kind := KNop 0%N; e_own := (Some (0%nat, [("x"%string, 0%N)])); e_snap := pv_s3 |}; {| e_kind := KQuiet; 
+    e_own := None; e_snap := pv_s3 |}; {| e_kind := KFire 1%N; e_own := None; e_snap := pv_s3 |}; 
+    {| e_kind := KBegin 1%N; e_own := (Some (0%nat, [("x"%string, 1%N)])); e_snap := pv_s4 |}; {| e_kind := KQuiet; 
+    e_own := None; e_snap := pv_s5 |}; {| e_kind := KNop 1%N; e_own := (Some (0%nat, [("x"%string, 1%N)])); 
+    e_snap := pv_s5 |}; {| e_kind := KNop 1%N; e_own := (Some (0%nat, [("x"%string, 1%N)])); e_snap := pv_s5 |}; 
+    {| e_kind := KQuiet; e_own := None; e_snap := pv_s6 |}; {| e_kind := KQuiet; e_own := None; e_snap := pv_s6 |}; 
+    {| e_kind := KQuiet; e_own := None; e_snap := pv_s6 |}]; uc_sane := true |}).
 
-Example validated_inhabited : ucase_model_ok as_is example_case = true /\ ucase_spec_ok example_case = true.
+Example validated_inhabited : ucase_model_ok all_off example_case = true /\ ucase_spec_ok example_case = true.
 Proof. vm_compute. auto. Qed.
 
 Example contexts_disjoint_inhabited : exists s s',
